@@ -1,5 +1,6 @@
 import PoolProofs.C08Lemmas
 import PoolProofs.C08I3Lemmas
+import PoolProofs.C08I2Lemmas
 /-!
 # C08 — the stored account always matches a real output; lifecycle moves are legal
 
@@ -311,6 +312,46 @@ theorem C08_I2_resume_adequate (s : State) :
     Lifecycle.watchMatchedAccountsCalls = ["CancelAccountSpend", "CancelAccountConf", "resumeAccount(false,false,0)"] ∧
     Lifecycle.startCalls = ["resumeAccount(true,false,feeRate)"] := by
   cases s <;> decide
+
+/-- **I2 after a restart**: when the start-up resumption of the account succeeds, the account is watched for
+the event its state waits for (`Adq`) – the new manager starts from an empty watcher registry -/
+theorem C08_I2_restart (s : AState) (fee : Bool) (f : Option (Nat × Nat))
+    (hok : (step s (.restart fee f)).2 = .ok) : Inv2 (step s (.restart fee f)).1 := by
+  cases hacct : s.acct with
+  | none =>
+    simp only [step, hacct]
+    intro a ha; simp at ha
+  | some a =>
+    simp only [step, hacct] at hok ⊢
+    exact resume_inv2 _ a _ _ _ _ (fun _ => rfl) hok
+
+/-- **I2 after WatchMatchedAccounts** (batch finalisation): both watchers are cancelled and re-armed -/
+theorem C08_I2_watchMatched (s : AState) (hok : (step s .watchMatched).2 = .ok) :
+    Inv2 (step s .watchMatched).1 := by
+  simp only [step, watchMatched] at hok ⊢
+  split
+  · rename_i hn; simp only [hn] at hok; simp at hok
+  · rename_i a ha
+    simp only [ha] at hok
+    have ha' : (cancelConf (cancelSpend s)).acct = some a := by
+      rw [(same_cancelConf _).2.1, (same_cancelSpend _).2.1]; exact ha
+    exact resume_inv2 _ a _ _ _ _ (fun _ => ha') hok
+
+/-- **I2 after account creation** -/
+theorem C08_I2_init (s : AState) (v e ver h : Nat) (f : Option (Nat × Nat))
+    (hok : (step s (.init v e ver h f)).2 = .ok) : Inv2 (step s (.init v e ver h f)).1 := by
+  simp only [step, initAccount] at hok ⊢
+  exact resume_inv2 _ _ _ _ _ _ (fun hne => absurd rfl hne) hok
+
+/-- **I2 is preserved by a confirmation handled in any state**, and established whenever the
+confirmation moves the account (`handleStateOpen` arms spend + expiry) -/
+theorem C08_I2_conf (s : AState) (h : Nat) (i2 : Inv2 s) : Inv2 (step s (.confDirect h)).1 :=
+  handleConf_inv2 s h i2
+
+/-- non-vacuity: restart of an open account re-arms spend and expiry watchers -/
+example :
+    let s := (step (run (AState.init 1) [.init 100000 1200 0 1000 (some (7, 0)), .conf 0 1003]) (.restart true none)).1
+    s.w.spendRegs.map (·.op) = [⟨7, 0⟩] ∧ s.w.expiry = some 1200 := by decide
 
 /-! ## I3 — the store write precedes the publication -/
 
